@@ -296,3 +296,46 @@ func c08Bulk(j int) (name string, patch, src []byte) {
 	sh := c08BulkShapes[(j/len(c08BulkPatches))%len(c08BulkShapes)]
 	return fmt.Sprintf("%s x %d %s", p.name, n, sh.name), []byte(p.patch), []byte(sh.gen(n))
 }
+
+// ---- command-line forms ---------------------------------------------------------
+
+// argument vectors around the edges of the option parser; "P" stands for the
+// patch file, "F" for a target file, "D" for the project directory
+var c08CLIForms = [][]string{
+	{},
+	{"--version"},
+	{"-h"},
+	{"--help"},
+	{"--version", "-p", "P", "F"},
+	{"-p", "P"},
+	{"-p"},
+	{"-P"},
+	{"F"},
+	{"D"},
+	{"--no-such-flag", "-p", "P", "F"},
+	{"-p", "P", "--", "F"},
+	{"-p", "P", "--", "-d"},
+	{"-p", "P", "-d", "--print-only", "-v", "--skip-generated", "--skip-import-processing", "F"},
+	{"-dv", "-p", "P", "F"},
+	{"-p=P", "F"},
+	{"--patch", "P", "F"},
+	{"--patch=P", "F"},
+	{"--patches-file", "P", "F"},
+	{"-p", "P", "-p", "P", "F", "F"},
+	{"-p", "", "F"},
+	{"-p", "P", ""},
+	{"-p", "P", "..."},
+	{"-p", "P", "/"},
+	{"-p", "P", "F", "-p"},
+	{"-p", "D", "F"},
+	{"-P", "D", "F"},
+	{"-p", "F", "F"},
+	{"-", "F"},
+	{"-p", "-", "F"},
+	{"-p", "P", "-"},
+	{"--diff=false", "-p", "P", "F"},
+	{"-d", "-d", "-d", "-p", "P", "F"},
+	{"-p", "P", "F", "--print-only=maybe"},
+}
+
+func c08CLIFormsN() int { return len(c08CLIForms) * 3 }
